@@ -67,6 +67,9 @@ def info(prop):
                         "coordinate orders plus 24 coordinate orders x 24 topology orders; thorough: the full product). "
                         "Families S2E/S2Q/S3Q put coordinate files of EQUAL atom count among the candidates (a distractor .gro as "
                         "large as a species' end .gro; two species with equally large end .gro files). "
+                        "Alias families (S2K/S3K, and 108 argv vectors of main): the explicit triples and the candidate list name the "
+                        "same files through different strings (dir/./file, relative vs absolute, identical copies under other "
+                        "names); the explicit species must not be discovered again. "
                         "main/auto_map: exhaustive over argv combinations (0..2 explicit species in every order, --auto with "
                         "every listed --exclude choice, --scale absent/given, --outfile absent/absolute/relative, three ways "
                         "of naming the input) on a generated 3-species system."),
@@ -135,6 +138,9 @@ LAYOUTS = {
     "S2E": {"species": "AB", "seq": "ABBAB", "distractors": ["txt", "same:A", "same:B"], "ref_listed": False},
     "S2Q": {"species": "BD", "seq": "BDDB", "distractors": ["txt", "gro"], "ref_listed": False},
     "S3Q": {"species": "ABD", "seq": "ABDDBA", "distractors": ["same:A"], "ref_listed": False},
+    # directories for the alias families (explicit triples and candidate list name the same files through different strings)
+    "S2K": {"species": "AB", "seq": "ABBAB", "distractors": ["txt"], "ref_listed": False},
+    "S3K": {"species": "ABC", "seq": "AABCBC", "distractors": ["gro"], "ref_listed": False},
 }
 
 
@@ -343,34 +349,67 @@ class AdvSet(set):
 
 def make_stub(tops_order, coords_order, counter):
     top_ext, coor_ext = parser_extensions()
+    kt = {_ap(f): i for i, f in enumerate(tops_order)}
+    kc = {_ap(f): i for i, f in enumerate(coords_order)}
 
     def classify_files_stub(files):
         counter["stub"] = counter.get("stub", 0) + 1
         t, c = classify_spec(list(files), top_ext, coor_ext)
-        return (AdvSet(t, [f for f in tops_order if f in t] + sorted(t - set(tops_order))),
-                AdvSet(c, [f for f in coords_order if f in c] + sorted(c - set(coords_order))))
+        # the chosen order is matched through the normalised path: the candidates may name a file by another string
+        return (AdvSet(t, sorted(t, key=lambda f: (kt.get(_ap(f), len(kt)), f))),
+                AdvSet(c, sorted(c, key=lambda f: (kc.get(_ap(f), len(kc)), f))))
     return classify_files_stub
+
+
+ALIASES = ("dot", "rel", "copy")
+
+
+def copy_name(f):
+    root, ext = os.path.splitext(f)
+    return f"{root}_copy{ext}"
+
+
+def case_copies(case):
+    """alias 'copy': byte-identical copies, under other file names, of the three files of every explicit species."""
+    if case.get("alias") != "copy" or case["layout"] == "shipped":
+        return []
+    return [copy_name(fname(s, r)) for s in case["explicit"] for r in ROLES]
+
+
+def case_candidate_names(case):
+    """Base names of the candidate list of a generated-directory case (before any aliasing)."""
+    return candidate_names(LAYOUTS[case["layout"]]) + case_copies(case)
 
 
 def sort_case_spec(case, folder):
     """Expected result, derived from the case descriptor only.
-    -> (reference path, candidate paths, known_files, expected dict, explicit names, incomplete dict)"""
+    -> (reference path, candidate paths, known_files, expected dict, explicit names, incomplete dict)
+
+    case["alias"]: the candidate list names the files through OTHER STRINGS than the explicit triples do --
+    'dot' dir/./file, 'rel' relative vs absolute path, 'copy' additional identical copies of the explicit species' files."""
     P = lambda f: os.path.join(folder, f) if folder else f
+    alias = case.get("alias")
+    if alias == "dot":
+        Pc = lambda f: (folder + os.sep if folder else "") + "." + os.sep + f
+    elif alias == "rel":
+        Pc = (lambda f: os.path.relpath(os.path.join(folder, f))) if folder else (lambda f: os.path.abspath(f))
+    else:
+        Pc = P
     if case["layout"] == "shipped":
         triples = {n: dict(zip(("top_CG", "coor_AA", "top_AA"), [P(x) for x in t])) for n, t in SHIPPED.items()}
         names = {n: n for n in SHIPPED}
-        cand = [P(x) for t in SHIPPED.values() for x in t] + [P(x) for x in SHIPPED_EXTRA]
+        cand = [Pc(x) for t in SHIPPED.values() for x in t] + [Pc(x) for x in SHIPPED_EXTRA]
         ref = P("system_bmimbf4_cg.gro")
         incomplete = {}
     else:
         lay = LAYOUTS[case["layout"]]
         triples = {SPECIES[s][0]: {r: P(fname(s, r)) for r in ("top_CG", "coor_AA", "top_AA")} for s in lay["species"]}
         names = {s: SPECIES[s][0] for s in lay["species"]}
-        cand = [P(f) for f in candidate_names(lay)]
+        cand = [Pc(f) for f in case_candidate_names(case)]
         ref = P("sys.gro")
         incomplete = {START_ONLY[s][0]: {"top_CG": P(fname(s, "top_CG"))} for s in lay.get("start_only", "")}
     if case.get("all_files_order"):
-        cand = [P(f) for f in case["all_files_order"]]
+        cand = [Pc(f) for f in case["all_files_order"]]
     explicit_names = [names[s] for s in case["explicit"]]
     known = [[triples[n]["top_CG"], triples[n]["coor_AA"], triples[n]["top_AA"]] for n in explicit_names]
     expected = {n: t for n, t in triples.items() if n not in explicit_names}
@@ -450,25 +489,33 @@ SORT_CLAUSES = ("no_exception", "exact_triples", "explicit_species_not_readded",
                 "same_result_for_every_order")
 
 
+def _plain(case):
+    """The case with plain base names (aliases 'dot'/'rel' only change the strings, not the set of files)."""
+    return dict(case, alias=("copy" if case.get("alias") == "copy" else None), all_files_order=None)
+
+
 def case_sets(case):
-    """Base names of the topology / coordinate candidates that remain after removing the explicit species."""
+    """Base names of the topology / coordinate candidates that remain in the sets the code iterates over: the explicit species'
+    files are removed by the code when the strings coincide (no alias, 'copy'), and stay when they are named differently."""
     top_ext, coor_ext = {"itp"}, {"gro"}
-    _, cand, known, _, _, _ = sort_case_spec(case, "")
-    gone = {f for k in known for f in k}
+    _, cand, known, _, _, _ = sort_case_spec(_plain(case), "")
+    gone = {f for k in known for f in k} if case.get("alias") in (None, "copy") else set()
     t = sorted(f for f in cand if extension_of(f) in top_ext and f not in gone)
     c = sorted(f for f in cand if extension_of(f) in coor_ext and f not in gone)
     return t, c
 
 
 def _explicit_files(case):
-    _, _, known, _, _, _ = sort_case_spec(case, "")
+    if case.get("alias") in ("dot", "rel"):
+        return []                   # already among the permuted names
+    _, _, known, _, _, _ = sort_case_spec(_plain(case), "")
     return [f for k in known for f in k]
 
 
 def cex_sort(case, tops_order, coords_order, clause, what):
     c = {"kind": "sort", "layout": case["layout"], "explicit": list(case["explicit"]),
          "tops_order": list(tops_order) if tops_order else None, "coords_order": list(coords_order) if coords_order else None,
-         "all_files_order": case.get("all_files_order"), "clause": clause, "observed": what}
+         "all_files_order": case.get("all_files_order"), "alias": case.get("alias"), "clause": clause, "observed": what}
     if case["layout"] != "shipped":
         c["files"] = layout_files(LAYOUTS[case["layout"]])
     sig = what if clause == "no_exception" else clause
@@ -482,13 +529,21 @@ def sort_folder(case, root):
     folder = os.path.join(root, case["layout"])
     if not os.path.isdir(folder):
         write_layout(LAYOUTS[case["layout"]], folder)
+    if case.get("alias") == "copy":
+        texts = layout_files(LAYOUTS[case["layout"]])
+        for s_ in case["explicit"]:
+            for r in ROLES:
+                with open(os.path.join(folder, copy_name(fname(s_, r))), "w") as fh:
+                    fh.write(texts[fname(s_, r)])
     return folder
 
 
-def task_sort_stubbed(layout, explicit, lo, hi, coord_mode, seed, tag):
+def task_sort_stubbed(layout, explicit, lo, hi, coord_mode, seed, tag, alias=None):
     """All topology-set orders [lo:hi) x coordinate-set orders (coord_mode) for one directory and explicit subset."""
     t0 = time.time()
     case = {"layout": layout, "explicit": list(explicit)}
+    if alias:
+        case["alias"] = alias
     root = tempfile.mkdtemp(prefix="c20_")
     try:
         folder = sort_folder(case, root)
@@ -517,7 +572,7 @@ def task_sort_stubbed(layout, explicit, lo, hi, coord_mode, seed, tag):
                 nontriv += 1 if tnames else 0
                 if first is None:
                     first = (res, tp, cp)
-                    sample = {"layout": layout, "explicit": list(explicit), "topology_set_order": list(tp),
+                    sample = {"layout": layout, "explicit": list(explicit), "alias": alias, "topology_set_order": list(tp),
                               "coordinate_set_order": list(cp), "result": res}
                 elif res != first[0] and "same_result_for_every_order" not in fails and not isinstance(res, str):
                     bad = dict(bad, same_result_for_every_order=f"orders {list(first[1])}/{list(first[2])} give {first[0]} "
@@ -564,7 +619,7 @@ def list_orderings(names, how, seed):
     return res
 
 
-def task_sort_native(layouts, n_shuffles, seed, tag):
+def task_sort_native(layouts, n_shuffles, seed, tag, aliases=(None,)):
     """The unstubbed function with real sets: orderings of the candidate list (relative names, so that the string hashes and
     hence the real sets' iteration orders are reproducible under the fixed PYTHONHASHSEED of ./check)."""
     t0 = time.time()
@@ -577,10 +632,14 @@ def task_sort_native(layouts, n_shuffles, seed, tag):
             lay = LAYOUTS[layout]
             folder = sort_folder({"layout": layout}, root)
             with cwd(folder):
-                for explicit in all_subsets(lay["species"]):
+                for explicit, alias in itertools.product(all_subsets(lay["species"]), aliases):
+                    if alias and not explicit:
+                        continue
                     first = None
-                    for order in list_orderings(candidate_names(lay), n_shuffles, seed + 7):
-                        case = {"layout": layout, "explicit": list(explicit), "all_files_order": list(order)}
+                    base = {"layout": layout, "explicit": list(explicit), "alias": alias}
+                    sort_folder(base, root)
+                    for order in list_orderings(case_candidate_names(base), n_shuffles, seed + 7):
+                        case = dict(base, all_files_order=list(order))
                         bad, res, _ = run_sort(case, "")
                         n += 1
                         if first is None:
@@ -624,7 +683,8 @@ print("C20RESULT" + json.dumps(out))
 
 def run_hashseed(case, folder, hashseed):
     """sort_molecules in a fresh interpreter under PYTHONHASHSEED=hashseed (relative file names, cwd=folder)."""
-    ref, cand, known, expected, explicit_names, incomplete = sort_case_spec(case, "")
+    with cwd(folder):
+        ref, cand, known, expected, explicit_names, incomplete = sort_case_spec(case, "")
     env = dict(os.environ, PYTHONHASHSEED=str(hashseed))
     p = subprocess.run([sys.executable, "-c", HASHSEED_SCRIPT, json.dumps([ref, cand, known])], cwd=folder, env=env,
                        capture_output=True, text=True, timeout=120)
@@ -640,7 +700,7 @@ def run_hashseed(case, folder, hashseed):
                 _strip(canon(o["result"]), here))
 
 
-def task_sort_hashseed(layout, seeds, tag):
+def task_sort_hashseed(layout, seeds, tag, alias=None):
     t0 = time.time()
     root = tempfile.mkdtemp(prefix="c20_")
     try:
@@ -650,9 +710,11 @@ def task_sort_hashseed(layout, seeds, tag):
         n = 0
         first = None
         sample = None
-        for explicit in ((), tuple(lay["species"][:1])):
+        for explicit in (((), tuple(lay["species"][:1])) if not alias else (tuple(lay["species"][:1]), tuple(lay["species"][-1:]))):
             for hs in seeds:
-                case = {"layout": layout, "explicit": list(explicit), "all_files_order": candidate_names(lay)}
+                case = {"layout": layout, "explicit": list(explicit), "alias": alias}
+                sort_folder(case, root)
+                case["all_files_order"] = case_candidate_names(case)
                 bad, res = run_hashseed(case, folder, hs)
                 n += 1
                 if not explicit:
@@ -812,7 +874,18 @@ def main_env(case, root):
     else:
         outfile = None
     if case["auto"]:
-        argv += ["--auto"] + [P(f) for f in (case.get("auto_order") or layout_files(LAYOUTS[MAIN_LAYOUT]))]
+        # alias: the --auto list names the files through other strings than --mol does
+        alias = case.get("alias")
+        listed = list(case.get("auto_order") or layout_files(LAYOUTS[MAIN_LAYOUT]))
+        if alias == "dot":
+            Pa = lambda f: os.path.join(os.path.dirname(P(f)), ".", f)
+        elif alias == "rel":
+            Pa = lambda f: os.path.relpath(P(f), run_dir) if os.path.isabs(P(f)) else os.path.join(work, f)
+        else:
+            Pa = P
+            if alias == "copy" and not case.get("auto_order"):
+                listed += [copy_name(fname(s, r)) for s in case["explicit"] for r in ROLES]
+        argv += ["--auto"] + [Pa(f) for f in listed]
         if case["exclude"] is not None:
             argv += ["--exclude"] + list(case["exclude"])
     excluded = set(case["exclude"] or []) if case["auto"] else set()
@@ -837,15 +910,27 @@ def main_env(case, root):
     return run_dir, argv, exp
 
 
+def main_inputs():
+    """Input files of the main() scenarios: the layout plus an identical copy, under another name, of every species file."""
+    texts = dict(layout_files(LAYOUTS[MAIN_LAYOUT]))
+    for s_ in MAIN_ALL:
+        for r in ROLES:
+            texts[copy_name(fname(s_, r))] = texts[fname(s_, r)]
+    return texts
+
+
 def prepare_main_root(root):
-    write_layout(LAYOUTS[MAIN_LAYOUT], os.path.join(root, "work"))
+    os.makedirs(os.path.join(root, "work"), exist_ok=True)
+    for f, text in main_inputs().items():
+        with open(os.path.join(root, "work", f), "w") as fh:
+            fh.write(text)
     os.makedirs(os.path.join(root, "out"), exist_ok=True)
     os.makedirs(os.path.join(root, "elsewhere"), exist_ok=True)
 
 
 def clean_outputs(root):
     """Remove every file produced by a run (anything that is not an input)."""
-    inputs = set(layout_files(LAYOUTS[MAIN_LAYOUT]))
+    inputs = set(main_inputs())
     made = []
     for d, _, fs in os.walk(root):
         for f in fs:
@@ -979,7 +1064,7 @@ def run_main(case, root, spy=True):
     for d, _, fs in os.walk(root):
         for f in sorted(fs):
             p = os.path.join(d, f)
-            if not (d == os.path.join(root, "work") and f in layout_files(LAYOUTS[MAIN_LAYOUT])):
+            if not (d == os.path.join(root, "work") and f in main_inputs()):
                 produced["files"].append(p)
     if len(produced["files"]) == 1:
         try:
@@ -1009,6 +1094,14 @@ def main_cases():
                 for outfile, style in ((None, "abs"), (None, "rel-same"), (None, "rel-sub"), ("abs", "abs"), ("rel", "rel-sub")):
                     cases.append({"explicit": list(explicit), "auto": auto, "exclude": e, "scale": scale,
                                   "outfile": outfile, "style": style})
+    # --mol and --auto reach the explicit species' files through different strings (appended last: chunking of the rest unchanged)
+    for explicit in explicit_lists:
+        rest = [SPECIES[s][0] for s in MAIN_ALL if s not in explicit]
+        for alias in (ALIASES if explicit else ()):
+            for e in (None, rest[:1]):
+                for style in ("abs", "rel-same"):
+                    cases.append({"explicit": list(explicit), "auto": True, "exclude": e, "scale": None, "outfile": None,
+                                  "style": style, "alias": alias})
     return cases
 
 
@@ -1218,7 +1311,7 @@ def run_e2e(case, root, npseed):
 
 
 def clean_outputs_list(root):
-    inputs = set(layout_files(LAYOUTS[MAIN_LAYOUT]))
+    inputs = set(main_inputs())
     made = []
     for d, _, fs in os.walk(root):
         for f in sorted(fs):
@@ -1274,25 +1367,36 @@ def tasks(prop, tier, seed):
           ("sort_molecules/guards", task_sort_guards, (seed,), 120.0),
           ("main/guards", task_main_guards, (seed,), 120.0)]
     # generated directories, every explicit subset, all iteration-order pairs
+    def add_stubbed(layout, explicit, alias=None):
+        case = {"layout": layout, "explicit": list(explicit), "alias": alias}
+        tn, cn = case_sets(case)
+        nt, nc = _fact(len(tn)), _fact(len(cn))
+        fam = f"gen.{layout}.explicit[{''.join(explicit) or '-'}]" + (f".alias-{alias}" if alias else "")
+        if nt * nc <= 1000:
+            ts.append((f"sort_molecules/{fam}", task_sort_stubbed,
+                       (layout, explicit, 0, nt, "all", seed, f"{fam}.tops{len(tn)}!xcoords{len(cn)}!", alias), 900.0))
+        else:
+            mode = "all" if (thorough or nt * nc <= 5000) else "few"
+            used = nc if mode == "all" else 2
+            for a, b in _chunks(nt, max(1, 1000 // used)):
+                ts.append((f"sort_molecules/{fam}/tops[{a}:{b}]", task_sort_stubbed,
+                           (layout, explicit, a, b, mode, seed, f"{fam}.tops[{a}:{b}]xcoords.{mode}", alias), 900.0))
+            if mode == "few":
+                ts.append((f"sort_molecules/{fam}/coords-all", task_sort_stubbed,
+                           (layout, explicit, 0, 0, "sample24", seed, f"{fam}.tops.sample24xcoords{len(cn)}!", alias), 900.0))
+
     for layout in ("S1", "S2", "S3", "S2W", "S2E", "S2Q", "S3Q"):
         # S2W (a system species with nothing but a start topology among the candidates) is an extra family: nothing explicit
         for explicit in (all_subsets(LAYOUTS[layout]["species"]) if layout != "S2W" else [()]):
-            case = {"layout": layout, "explicit": list(explicit)}
-            tn, cn = case_sets(case)
-            nt, nc = _fact(len(tn)), _fact(len(cn))
-            fam = f"gen.{layout}.explicit[{''.join(explicit) or '-'}]"
-            if nt * nc <= 1000:
-                ts.append((f"sort_molecules/{fam}", task_sort_stubbed,
-                           (layout, explicit, 0, nt, "all", seed, f"{fam}.tops{len(tn)}!xcoords{len(cn)}!"), 900.0))
-            else:
-                mode = "all" if (thorough or nt * nc <= 5000) else "few"
-                used = nc if mode == "all" else 2
-                for a, b in _chunks(nt, max(1, 1000 // used)):
-                    ts.append((f"sort_molecules/{fam}/tops[{a}:{b}]", task_sort_stubbed,
-                               (layout, explicit, a, b, mode, seed, f"{fam}.tops[{a}:{b}]xcoords.{mode}"), 900.0))
-                if mode == "few":
-                    ts.append((f"sort_molecules/{fam}/coords-all", task_sort_stubbed,
-                               (layout, explicit, 0, 0, "sample24", seed, f"{fam}.tops.sample24xcoords{len(cn)}!"), 900.0))
+            add_stubbed(layout, explicit)
+    # the explicit triples and the candidate list name the same files through different strings (./, relative vs absolute,
+    # identical copies under other names): the explicit species must not be discovered again
+    for explicit in all_subsets("AB")[1:]:
+        for alias in ALIASES:
+            add_stubbed("S2K", explicit, alias)
+    s3k = [(e, a) for e in all_subsets("ABC")[1:] for a in ALIASES] if thorough else [(("A", "C"), "dot"), (("B",), "copy")]
+    for explicit, alias in s3k:
+        add_stubbed("S3K", explicit, alias)
     # shipped BMIM/BF4
     for explicit in all_subsets(["BMIM", "BF4"]):
         case = {"layout": "shipped", "explicit": list(explicit)}
@@ -1308,6 +1412,12 @@ def tasks(prop, tier, seed):
     ts.append(("sort_molecules/native-sets/S3", task_sort_native, (["S3"], 1500 if thorough else 40, seed, "native-sets.S3.list-orderings"), 900.0))
     ts.append(("sort_molecules/native-sets/S2E.S2Q", task_sort_native, (["S2E", "S2Q"], 1500 if thorough else 60, seed, "native-sets.S2E.S2Q.list-orderings"), 900.0))
     ts.append(("sort_molecules/native-sets/S3Q", task_sort_native, (["S3Q"], 1500 if thorough else 40, seed, "native-sets.S3Q.list-orderings"), 900.0))
+    ts.append(("sort_molecules/native-sets/S2K.aliases", task_sort_native,
+               (["S2K"], 300 if thorough else 30, seed, "native-sets.S2K.aliases.list-orderings", ALIASES), 900.0))
+    hk = list(range(1, 17)) if thorough else list(range(1, 4))
+    for alias in ("dot", "copy"):
+        ts.append((f"sort_molecules/hashseed/S2K.alias-{alias}", task_sort_hashseed,
+                   ("S2K", hk, f"hashseed.S2K.alias-{alias}[{hk[0]}..{hk[-1]}]", alias), 900.0))
     hq = list(range(1, 33)) if thorough else list(range(1, 4))
     for lay in ("S2E", "S2Q", "S3Q"):
         for i in range(0, len(hq), 8):
@@ -1357,7 +1467,10 @@ def replay(prop, cex):
             if not any(not k.startswith("info.") for k in bad) and case.get("auto"):
                 # the scratch directory name differs from the checker's run, so the real sets may iterate differently:
                 # search natively over listings of the candidate files
-                for order in list_orderings(list(layout_files(LAYOUTS[MAIN_LAYOUT])), 80, 3):
+                names = list(layout_files(LAYOUTS[MAIN_LAYOUT]))
+                if cex["case"].get("alias") == "copy":
+                    names += [copy_name(fname(s_, r)) for s_ in cex["case"]["explicit"] for r in ROLES]
+                for order in list_orderings(names, 80, 3):
                     case = dict(cex["case"], auto_order=list(order))
                     bad, log, exp, argv = run_main(case, root)
                     if any(not k.startswith("info.") for k in bad):
@@ -1386,12 +1499,13 @@ def replay(prop, cex):
 def _replay_sort(cex):
     """Native search for the failure: the real, unstubbed sort_molecules (real sets) over orderings of the candidate
     list in this interpreter, then fresh interpreters under other PYTHONHASHSEED values."""
-    case = {"layout": cex["layout"], "explicit": list(cex["explicit"]), "all_files_order": cex.get("all_files_order")}
+    case = {"layout": cex["layout"], "explicit": list(cex["explicit"]), "all_files_order": cex.get("all_files_order"),
+            "alias": cex.get("alias")}
     root = tempfile.mkdtemp(prefix="c20_")
     tried = 0
     try:
         folder = sort_folder(case, root)
-        _, cand, _, _, _, _ = sort_case_spec(dict(case, all_files_order=None), "")
+        _, cand, _, _, _, _ = sort_case_spec(_plain(case), "")
         base = cex.get("all_files_order") or cand
         results = {}
         with cwd(folder):
